@@ -22,6 +22,12 @@ package keep_fields
 // [split, this plugin] (real processor.Spawn); the children and the same documents sent as ordinary events are
 // compared with the same declarative expectation.
 //
+// NAME LENGTH (names matter only through equality; specification lemma RenameInvariant): every ordinary case runs
+// once more, through a fresh instance, with its names replaced by a name table whose names have one of the lengths
+// 1, 7, 8, 31, 32, 63, 64, 65, 127, 128, 255, 256, 1000 (table chosen by case number + seed): two names of that
+// length differing only in the last byte, one equal to them up to that byte and one byte longer, a dotted one
+// (escaped in the selector), one differing in the first byte; document, selectors and expectation renamed alike.
+//
 // INSTANCES (the per-depth buffers belong to ONE plugin instance): for a seeded sample of selector lists
 // (VERIF_STRESS) N >= 4 real plugin instances are started from ONE shared Config object, the way the pipeline does
 // (pipeline.newProc / processor.start: one Config, one plugin per processor), and run concurrently for a bounded time,
@@ -68,6 +74,25 @@ const (
 const c18JunkKey = 9
 
 var c18KeyNames = map[int]string{1: "a", 2: "b", 3: "a.b", 4: "a.b.a", 5: "b.a"}
+
+var c18NameAll = false // VERIF_NAME_ALL=1 (replay): every ordinary case under every name table
+
+var c18NameEvery = 1 // VERIF_NAME_EVERY: every n-th ordinary case also runs under a long-name table
+
+var c18NameLens = []int{1, 7, 8, 31, 32, 63, 64, 65, 127, 128, 255, 256, 1000}
+
+// injective name table for the length l
+func c18NameTable(l int) map[int]string {
+	p := strings.Repeat("n", l-1)
+	return map[int]string{
+		1: p + "a",   // length l
+		2: p + "b",   // length l, differs from 1 only in the last byte
+		3: p + "ac",  // equal to 1 up to byte l, one byte longer
+		4: p + "a.b", // dotted (escaped in the selector); not the path 1 -> "b"
+		5: "q" + p,   // length l, differs in the first byte
+	}
+}
+
 var c18LeafText = map[int]string{1: `1`, 2: `"s"`, 3: `null`}
 var c18Widths = []int{1, 99, 100, 101, 150, 250}
 
@@ -81,9 +106,13 @@ type c18Node struct {
 
 // value encoding: leaf -> code; object -> [0,k1,v1,k2,v2,...]; array -> [1,e1,e2,...].
 // A member with the marker key is replaced by `width` members junk_000.. with the same value.
-func c18Build(v interface{}, width int) *c18Node { return c18BuildP(v, width, "junk_") }
+func c18Build(v interface{}, width int) *c18Node { return c18BuildN(v, width, "junk_", c18KeyNames) }
 
 func c18BuildP(v interface{}, width int, prefix string) *c18Node {
+	return c18BuildN(v, width, prefix, c18KeyNames)
+}
+
+func c18BuildN(v interface{}, width int, prefix string, names map[int]string) *c18Node {
 	switch x := v.(type) {
 	case float64:
 		if _, ok := c18LeafText[int(x)]; !ok {
@@ -101,23 +130,23 @@ func c18BuildP(v interface{}, width int, prefix string) *c18Node {
 				if code == c18JunkKey {
 					for j := 0; j < width; j++ {
 						n.keys = append(n.keys, fmt.Sprintf("%s%03d", prefix, j))
-						n.vals = append(n.vals, c18BuildP(x[i+1], width, prefix))
+						n.vals = append(n.vals, c18BuildN(x[i+1], width, prefix, names))
 					}
 					continue
 				}
-				name, ok := c18KeyNames[code]
+				name, ok := names[code]
 				if !ok {
 					panic(fmt.Sprintf("bad key code %v", x[i]))
 				}
 				n.keys = append(n.keys, name)
-				n.vals = append(n.vals, c18BuildP(x[i+1], width, prefix))
+				n.vals = append(n.vals, c18BuildN(x[i+1], width, prefix, names))
 			}
 			return n
 		}
 		n := &c18Node{kind: 2}
 		for i := 1; i < len(x); i++ {
 			n.keys = append(n.keys, "")
-			n.vals = append(n.vals, c18BuildP(x[i], width, prefix))
+			n.vals = append(n.vals, c18BuildN(x[i], width, prefix, names))
 		}
 		return n
 	}
@@ -242,6 +271,28 @@ type c18Case struct {
 	want     interface{}
 	model    interface{} // nil = same as want
 	hasModel bool
+	codes    [][]int
+	NameLen  int // 0 = the specification's own names; else the length of the name table used
+}
+
+// the selector list as a user writes it, for a name table
+func (c *c18Case) setNames(names map[int]string) error {
+	c.Sels, c.Paths = nil, nil
+	for _, p := range c.codes {
+		var parts, ns []string
+		for _, k := range p {
+			name, ok := names[k]
+			if !ok {
+				return fmt.Errorf("bad key code %v", k)
+			}
+			ns = append(ns, name)
+			// as a user writes it: a dot inside a field name is escaped with a backslash
+			parts = append(parts, strings.ReplaceAll(name, ".", `\.`))
+		}
+		c.Paths = append(c.Paths, ns)
+		c.Sels = append(c.Sels, strings.Join(parts, "."))
+	}
+	return nil
 }
 
 func c18HasJunk(v interface{}) bool {
@@ -276,18 +327,14 @@ func c18ParseCase(line string) (*c18Case, error) {
 	c := &c18Case{Line: line, Fam: int(t[0].(float64)), doc: t[1], want: t[c18WantIdx]}
 	c.Wide = c18HasJunk(t[1])
 	for _, p := range t[2].([]interface{}) {
-		var parts, names []string
+		var codes []int
 		for _, k := range p.([]interface{}) {
-			name, ok := c18KeyNames[int(k.(float64))]
-			if !ok {
-				return nil, fmt.Errorf("bad key code %v", k)
-			}
-			names = append(names, name)
-			// as a user writes it: a dot inside a field name is escaped with a backslash
-			parts = append(parts, strings.ReplaceAll(name, ".", `\.`))
+			codes = append(codes, int(k.(float64)))
 		}
-		c.Paths = append(c.Paths, names)
-		c.Sels = append(c.Sels, strings.Join(parts, "."))
+		c.codes = append(c.codes, codes)
+	}
+	if err := c.setNames(c18KeyNames); err != nil {
+		return nil, err
 	}
 	if _, same := t[c18ModelIdx].(float64); !same {
 		c.model, c.hasModel = t[c18ModelIdx], true
@@ -373,6 +420,7 @@ type c18Mismatch struct {
 	Event     int      `json:"event"`      // n-th Do of the plugin instance
 	EvKind    string   `json:"event_kind"` // regular | child | child_parent | pipeline_regular | pipeline_child
 	Width     int      `json:"width"`      // 0 = not a widened case; else the number of junk members per marker
+	NameLen   int      `json:"name_len"`   // 0 = the specification's names; else the length of the names used
 	Order     string   `json:"width_order,omitempty"`
 	Instances int      `json:"instances,omitempty"` // concurrent runs: plugin instances started from the one config
 	Instance  int      `json:"instance,omitempty"`
@@ -423,7 +471,7 @@ func c18RunInstance(c *c18Case, params *pipeline.ActionPluginParams, events []c1
 	cur := c18Event{}
 	defer func() {
 		if r := recover(); r != nil {
-			mm = append(mm, &c18Mismatch{Plugin: c18Plugin, Kind: "panic", Event: n, EvKind: cur.kind, Width: cur.width, Order: order, Fam: c.Fam,
+			mm = append(mm, &c18Mismatch{Plugin: c18Plugin, Kind: "panic", Event: n, EvKind: cur.kind, NameLen: c.NameLen, Width: cur.width, Order: order, Fam: c.Fam,
 				Doc: c18Short(cur.doc), Fields: c.Sels, Want: c18Short(cur.want), Panic: fmt.Sprint(r), Case: c.Line})
 		}
 	}()
@@ -466,7 +514,7 @@ func c18RunInstance(c *c18Case, params *pipeline.ActionPluginParams, events []c1
 			insaneJSON.Release(parent)
 		}
 
-		m := &c18Mismatch{Plugin: c18Plugin, Event: n, EvKind: ev.kind, Width: ev.width, Order: order, Fam: c.Fam, Doc: c18Short(ev.doc),
+		m := &c18Mismatch{Plugin: c18Plugin, Event: n, EvKind: ev.kind, NameLen: c.NameLen, Width: ev.width, Order: order, Fam: c.Fam, Doc: c18Short(ev.doc),
 			Fields: c.Sels, Want: c18Short(ev.want), Got: c18Short(got), Case: c.Line}
 		if res != pipeline.ActionPass {
 			m.Kind = "content"
@@ -490,7 +538,7 @@ func c18Predict(c *c18Case, doc, want *c18Node) *c18Node {
 
 // returns the mismatches, whether the case is non-trivial, whether a re-ordering is predicted, and whether the
 // harness's order predictor disagrees with the specification's (self-check; must never happen)
-func c18Exec(c *c18Case, params *pipeline.ActionPluginParams) (mm []*c18Mismatch, nontrivial, reorder, predictorOff bool) {
+func c18Exec(c *c18Case, params *pipeline.ActionPluginParams, idx int) (mm []*c18Mismatch, nontrivial, reorder, predictorOff bool) {
 	if !c.Wide {
 		doc, want := c18Build(c.doc, 1), c18Build(c.want, 1)
 		ev := c18Event{kind: "regular", doc: doc.text(), want: want.text()}
@@ -503,7 +551,35 @@ func c18Exec(c *c18Case, params *pipeline.ActionPluginParams) (mm []*c18Mismatch
 		reorder = ev.model != ev.want
 		child, childParent := ev, ev
 		child.kind, childParent.kind = "child", "child_parent"
-		return c18RunInstance(c, params, []c18Event{ev, ev, child, childParent}, ""), nontrivial, reorder, predictorOff
+		mm = c18RunInstance(c, params, []c18Event{ev, ev, child, childParent}, "")
+		// the same case under a name table of another length (fresh instance, one regular event);
+		// every c18NameEvery-th case
+		if idx%c18NameEvery != 0 && !c18NameAll {
+			return mm, nontrivial, reorder, predictorOff
+		}
+		lens := []int{c18NameLens[(idx/c18NameEvery)%len(c18NameLens)]}
+		if c18NameAll {
+			lens = c18NameLens
+		}
+		for _, l := range lens {
+			names := c18NameTable(l)
+			rc := *c
+			rc.NameLen = l
+			if err := rc.setNames(names); err != nil {
+				panic(err)
+			}
+			rdoc, rwant := c18BuildN(c.doc, 1, "junk_", names), c18BuildN(c.want, 1, "junk_", names)
+			rev := c18Event{kind: "regular", doc: rdoc.text(), want: rwant.text()}
+			rev.model = rev.want
+			if c.hasModel {
+				rev.model = c18BuildN(c.model, 1, "junk_", names).text()
+			}
+			if c18Predict(&rc, rdoc, rwant).text() != rev.model {
+				predictorOff = true
+			}
+			mm = append(mm, c18RunInstance(&rc, params, []c18Event{rev}, "")...)
+		}
+		return mm, nontrivial, reorder, predictorOff
 	}
 	var asc []c18Event
 	for _, w := range c18Widths {
@@ -555,6 +631,19 @@ func TestVerifC18(t *testing.T) {
 		t.Fatal(err)
 	}
 
+	if n := 0; true {
+		fmt.Sscan(os.Getenv("VERIF_NAME_EVERY"), &n)
+		if n > 1 {
+			c18NameEvery = n
+		}
+	}
+	c18NameAll = os.Getenv("VERIF_NAME_ALL") == "1"
+	seedShift := 0
+	fmt.Sscan(os.Getenv("VERIF_SEED"), &seedShift)
+	if seedShift < 0 {
+		seedShift = -seedShift
+	}
+	seedShift %= 1 << 20
 	nw := runtime.GOMAXPROCS(0)
 	var wg sync.WaitGroup
 	var mu sync.Mutex
@@ -575,7 +664,7 @@ func TestVerifC18(t *testing.T) {
 					mu.Unlock()
 					continue
 				}
-				mm, nt, ro, off := c18Exec(c, params)
+				mm, nt, ro, off := c18Exec(c, params, i+seedShift)
 				mu.Lock()
 				executed++
 				if c.Wide {
@@ -583,6 +672,11 @@ func TestVerifC18(t *testing.T) {
 					events += 2 * len(c18Widths)
 				} else {
 					events += 4
+					if c18NameAll {
+						events += len(c18NameLens)
+					} else if (i+seedShift)%c18NameEvery == 0 {
+						events++
+					}
 				}
 				if nt {
 					nontrivial++
@@ -594,7 +688,7 @@ func TestVerifC18(t *testing.T) {
 					predictorOff++
 				}
 				for _, m := range mm {
-					class := fmt.Sprintf("%s/%v/%s/event%d/width%d%s", m.Kind, m.AsSwap, m.EvKind, m.Event, m.Width, m.Order)
+					class := fmt.Sprintf("%s/%v/%s/event%d/width%d%s/len%d", m.Kind, m.AsSwap, m.EvKind, m.Event, m.Width, m.Order, m.NameLen)
 					counts[class]++
 					if len(kept[class]) < perClass {
 						kept[class] = append(kept[class], m)
